@@ -64,6 +64,25 @@ fn view_of<S: ShortGroupSignatureScheme>(p: &Presentation<S>) -> View {
 /// public generators of a schema (G1): curve generator, statement generators, encryption keys, BBS message generators
 fn public_gens<S: ShortGroupSignatureScheme>(schema: &credx::presentation::PresentationSchema<S>) -> Vec<(String, G1Projective)> {
     let mut g = vec![("g1".to_string(), G1Projective::GENERATOR)];
+    // statement-level generators and encryption keys first (the cap below must not cut them off)
+    for st in schema.statements.values() {
+        match st {
+            Statements::Commitment(x) => {
+                g.push((format!("{}.message_generator", x.id), x.message_generator));
+                g.push((format!("{}.blinder_generator", x.id), x.blinder_generator));
+            }
+            Statements::VerifiableEncryption(x) => {
+                g.push((format!("{}.message_generator", x.id), x.message_generator));
+                g.push((format!("{}.encryption_key", x.id), x.encryption_key.0));
+            }
+            Statements::VerifiableEncryptionDecryption(x) => {
+                g.push((format!("{}.message_generator", x.id), x.message_generator));
+                g.push((format!("{}.encryption_key", x.id), x.encryption_key.0));
+            }
+            _ => {}
+        }
+    }
+    g.dedup_by(|a, b| a.1 == b.1);
     let sv = serde_json::to_value(schema).unwrap();
     let mut ls = vec![];
     leaves(&sv, &mut vec![], &mut ls);
@@ -71,7 +90,7 @@ fn public_gens<S: ShortGroupSignatureScheme>(schema: &credx::presentation::Prese
         if leaf_kind(&leaf) == LeafKind::G1 {
             if let Some(q) = g1_of_hex(leaf.as_str().unwrap()) {
                 let name = path.iter().filter(|s| s.parse::<usize>().is_err()).cloned().collect::<Vec<_>>().join(".");
-                if !g.iter().any(|(_, x)| *x == q) && g.len() < 12 {
+                if !g.iter().any(|(_, x)| *x == q) && g.len() < 16 {
                     g.push((name, q));
                 }
             }
@@ -164,10 +183,45 @@ fn distinguishers(view: &View, gens: &[(String, G1Projective)], m0: &Scalar, m1:
 }
 
 /// byte-level variant for the decryptable encryptions: candidate bytes against (byte response, byte c1)
-fn byte_distinguishers(view: &View, m0: &Scalar, m1: &Scalar) -> Vec<String> {
+/// byte ciphertexts whose randomness leaks through a blinder response without nonce (s = c·b, checked against
+/// c1 = b·G): returns (byte index, c2 − b·K for every public generator K)
+fn stripped_byte_ciphertexts(view: &View, gens: &[(String, G1Projective)]) -> Vec<(usize, Vec<G1Projective>)> {
+    let mut out = vec![];
+    let cinv = match Option::<Scalar>::from(view.challenge.invert()) {
+        Some(c) => c,
+        None => return out,
+    };
+    for (n, s) in view.scalars.iter().filter(|(n, _)| n.contains("byte_proofs") && n.ends_with("blinder")) {
+        let i = match n.split('/').filter_map(|s| s.parse::<usize>().ok()).last() {
+            Some(i) if i < 32 => i,
+            _ => continue,
+        };
+        let b = *s * cinv;
+        let c1 = view.g1.iter().find(|(n, _)| n.contains("byte_ciphertext") && n.contains("c1") && n.ends_with(&format!("/{}", i)));
+        let c2 = view.g1.iter().find(|(n, _)| n.contains("byte_ciphertext") && n.contains("c2") && n.ends_with(&format!("/{}", i)));
+        if let (Some((_, c1)), Some((_, c2))) = (c1, c2) {
+            if *c1 == G1Projective::GENERATOR * b {
+                out.push((i, gens.iter().map(|(_, k)| *c2 - *k * b).collect()));
+            }
+        }
+    }
+    out
+}
+
+fn byte_distinguishers(view: &View, gens: &[(String, G1Projective)], m0: &Scalar, m1: &Scalar) -> Vec<String> {
     let c = view.challenge;
     let mut found = vec![];
     let (b0, b1) = (m0.to_be_bytes(), m1.to_be_bytes());
+    // a byte ciphertext stripped of its randomness is (generator · byte)
+    for (i, pts) in stripped_byte_ciphertexts(view, gens) {
+        for t in &pts {
+            for (_, m) in gens {
+                if (*t == *m * Scalar::from(b0[i] as u64)) != (*t == *m * Scalar::from(b1[i] as u64)) {
+                    found.push(format!("byte-blinder-response-without-nonce:byte_proofs/{}/blinder", i));
+                }
+            }
+        }
+    }
     // byte responses without a nonce, or sharing one: p_i = c·byte_i, p_i - p_j = c·(byte_i - byte_j)
     let byte_resp: Vec<(usize, &String, Scalar)> = view
         .scalars
@@ -309,7 +363,7 @@ fn c07_suite<S: ShortGroupSignatureScheme>(em: &mut Emitter, base: &mut Rng, sui
         // the other claims of the scenario's credentials (side knowledge / enumerable values)
         let others: Vec<Scalar> = scn.bundles.iter().flat_map(|b| b.credential.claims.iter().enumerate().filter(|(i, _)| *i != ci).map(|(_, c)| c.to_scalar()).collect::<Vec<_>>()).collect();
         let mut found = distinguishers(&view, &gens, &m0, &m1, &others);
-        found.extend(byte_distinguishers(&view, &m0, &m1));
+        found.extend(byte_distinguishers(&view, &gens, &m0, &m1));
         if let Some(g) = scn.schema.statements.values().find_map(|s| match s {
             Statements::VerifiableEncryptionDecryption(x) => Some(x.message_generator),
             _ => None,
@@ -516,8 +570,17 @@ fn pairing_eq(a: &G1Projective, b: &G2Projective, c: &G1Projective, d: &G2Projec
 }
 
 /// linking tests between two presentation views; returns the names of the tests that hold
-fn links(a: &View, b: &View) -> Vec<String> {
+fn links(a: &View, b: &View, gens: &[(String, G1Projective)]) -> Vec<String> {
     let mut out = vec![];
+    // byte ciphertexts whose randomness leaks: the stripped point is a constant of the credential
+    let (sa, sb) = (stripped_byte_ciphertexts(a, gens), stripped_byte_ciphertexts(b, gens));
+    for (i, pa) in &sa {
+        if let Some((_, pb)) = sb.iter().find(|(j, _)| j == i) {
+            if pa.iter().zip(pb.iter()).any(|(x, y)| x == y) {
+                out.push(format!("equal-stripped-byte-ciphertext:byte_proofs/{}/blinder", i));
+            }
+        }
+    }
     for ((n, x), (_, y)) in a.scalars.iter().zip(b.scalars.iter()) {
         if x == y {
             out.push(format!("equal-scalar:{}", n));
@@ -592,9 +655,37 @@ fn c12_suite<S: ShortGroupSignatureScheme>(em: &mut Emitter, base: &mut Rng, sui
         mix.equality = false;
         mix.membership = false;
         mix.disclosed.truncate(1);
-        // deliberately derived pseudonyms are outside the property: no encryption statements
-        mix.verenc = None;
-        mix.ved = None;
+        // encryption statements: their pseudonym is for the key holder only — the linking tests use public data,
+        // so the ciphertexts must be as unlinkable as everything else
+        let hidden_claim = 1 + (k % 3);
+        match k % 4 {
+            1 => {
+                mix.verenc = Some((hidden_claim.min(mix.n_claims - 1), true));
+                mix.ved = None;
+            }
+            2 => {
+                mix.verenc = Some((hidden_claim.min(mix.n_claims - 1), false));
+                mix.ved = None;
+            }
+            3 if em.thorough() || k < 8 => {
+                mix.ved = Some(hidden_claim.min(mix.n_claims - 1));
+                mix.verenc = None;
+            }
+            _ => {
+                mix.verenc = None;
+                mix.ved = None;
+            }
+        }
+        if let Some((ci, _)) = mix.verenc {
+            for d in mix.disclosed.iter_mut() {
+                d.retain(|l| *l != LABELS[ci]);
+            }
+        }
+        if let Some(ci) = mix.ved {
+            for d in mix.disclosed.iter_mut() {
+                d.retain(|l| *l != LABELS[ci]);
+            }
+        }
         // the holders differ in their (hidden) identifier
         for d in mix.disclosed.iter_mut() {
             d.retain(|l| l != "id");
@@ -604,6 +695,12 @@ fn c12_suite<S: ShortGroupSignatureScheme>(em: &mut Emitter, base: &mut Rng, sui
         // a second credential of the same issuer with the same claims except the hidden identifier
         let mut claims_b = scn_a.bundles[0].credential.claims.clone();
         claims_b[0] = RevocationClaim::from(format!("other-holder-{}", k)).into();
+        // … and in the (hidden) claim an encryption statement speaks about
+        for ci in [mix.verenc.map(|x| x.0), mix.ved].into_iter().flatten() {
+            if ci > 0 && ci < claims_b.len() {
+                claims_b[ci] = other_value(&claims_b[ci], rng);
+            }
+        }
         let mut issuer = scn_a.issuers[0].clone();
         let bundle_b = match issuer.sign_credential(&claims_b) {
             Ok(b) => b,
@@ -625,8 +722,9 @@ fn c12_suite<S: ShortGroupSignatureScheme>(em: &mut Emitter, base: &mut Rng, sui
         recommit_lines(em, suite, &scn_a.schema, &pa2, &nonce2);
         em.op(plan_line(&scn_a.schema, &pa2, suite), plan_class(&pa2, &scn_a.schema, &nonce2).0);
         let (va1, va2, vb) = (view_of(&pa1), view_of(&pa2), view_of(&pb));
-        let same = links(&va1, &va2);
-        let diff = links(&va1, &vb);
+        let lgens = public_gens(&scn_a.schema);
+        let same = links(&va1, &va2, &lgens);
+        let diff = links(&va1, &vb, &lgens);
         em.oracle_case(&format!("{} {} {}", suite, mix.describe(), k));
         em.count(&format!("{}:pairs", suite));
         em.count_n("tests-holding-for-both", same.iter().filter(|t| diff.contains(t)).count() as u64);
